@@ -238,7 +238,7 @@ func (in *Instance) Reimport() M {
 }
 
 // cmdReimport: random histories; after every few transactions the reached state is exported and re-imported.
-func cmdReimport(tab *SymTab, bw *bufio.Writer, n, depth int, seed int64) {
+func cmdReimport(tab *SymTab, rd *os.File, bw *bufio.Writer, n, depth int, seed int64) {
 	inst := NewInstance(tab, false)
 	id := 0
 	for h := *firstHistory; h < *firstHistory+n; h++ {
@@ -261,6 +261,35 @@ func cmdReimport(tab *SymTab, bw *bufio.Writer, n, depth int, seed int64) {
 				bw.Write(bz)
 				bw.WriteByte('\n')
 			}
+		}
+	}
+	// given histories (TLC-enumerated paths with discarded and failing transactions): each on a chain and keeper of
+	// its own, exported and re-imported at its end
+	if rd != os.Stdin {
+		sc := bufio.NewScanner(rd)
+		sc.Buffer(make([]byte, 1<<20), 1<<26)
+		gh := 5_000_000
+		for sc.Scan() {
+			rec, ok := parseLine(sc.Bytes())
+			if !ok || rec["init"] == nil {
+				continue
+			}
+			gh++
+			one := NewInstance(tab, false)
+			init := getm(rec, "init")
+			one.Materialise(init)
+			cur := init
+			evs := arr(rec, "events")
+			for _, e := range evs {
+				em := e.(map[string]any)
+				ev := jsonRoundTrip(runEvent(one, cur, getm(em, "msg"), faultsOf(em["faults"])))
+				cur = getm(getm(ev, "obs"), "post")
+			}
+			id++
+			bz, _ := json.Marshal(M{"id": id, "kind": "reimport", "history": gh, "step": len(evs), "obs": one.Reimport(),
+				"given": M{"init": init, "events": evs}})
+			bw.Write(bz)
+			bw.WriteByte('\n')
 		}
 	}
 	fmt.Fprintf(os.Stderr, "reimport: %d states\n", id)
